@@ -40,6 +40,54 @@ def _effect_for(mod, L):
     return effect
 
 
+_AC = {ast.BitXor: ('^', 0), ast.Mult: ('*', 1), ast.Add: ('+', 0), ast.BitAnd: ('&', None), ast.BitOr: ('|', 0)}
+
+
+def normal_form(text):
+    """the expression text with associative-commutative operators (^ * + & |) flattened, their identity elements dropped, `x << 0` reduced to x
+    and the operands sorted: two texts with the same normal form denote the same function of the symbols (Python integers)"""
+    try:
+        e = ast.parse(text, mode='eval').body
+    except SyntaxError:
+        return text
+
+    def nf(n):
+        if isinstance(n, ast.BinOp) and type(n.op) in _AC:
+            sym, ident = _AC[type(n.op)]
+            ops, work = [], [n]
+            while work:
+                x = work.pop()
+                if isinstance(x, ast.BinOp) and type(x.op) is type(n.op):
+                    work.append(x.right)
+                    work.append(x.left)
+                else:
+                    ops.append(nf(x))
+            if ident is not None:
+                ops = [o for o in ops if o != repr(ident)]
+            if not ops:
+                return repr(ident)
+            if len(ops) == 1:
+                return ops[0]
+            return '(' + (' %s ' % sym).join(sorted(ops)) + ')'
+        if isinstance(n, ast.BinOp) and isinstance(n.op, ast.LShift):
+            l_, r_ = nf(n.left), nf(n.right)
+            return l_ if r_ == '0' else '(%s << %s)' % (l_, r_)
+        if isinstance(n, ast.BinOp):
+            return '(%s %s %s)' % (nf(n.left), type(n.op).__name__, nf(n.right))
+        if isinstance(n, ast.UnaryOp):
+            if isinstance(n.op, ast.USub) and isinstance(n.operand, ast.Constant):
+                return repr(-n.operand.value)
+            return '(%s %s)' % (type(n.op).__name__, nf(n.operand))
+        if isinstance(n, ast.Call):
+            return '%s(%s)' % (nf(n.func), ', '.join(nf(a) for a in n.args))
+        if isinstance(n, ast.Constant):
+            return repr(n.value)
+        if isinstance(n, ast.Name):
+            return n.id
+        return ast.unparse(n)
+    return nf(e)
+
+
 def terms(mod, lengths=LENGTHS):
     """{key length: text of the expression _murmur3 returns}"""
     f = mod.func('_murmur3')
@@ -56,7 +104,7 @@ def terms(mod, lengths=LENGTHS):
         oks = [o for o in outs if o.kind == 'ok']
         if len(oks) != 1 or len(outs) != 1:
             raise AnalysisError('_murmur3 has %d outcomes for a %d byte key (one expected)' % (len(outs), L))
-        out[L] = text_of(oks[0].value) if isinstance(oks[0].value, Sym) else repr(oks[0].value)
+        out[L] = normal_form(text_of(oks[0].value) if isinstance(oks[0].value, Sym) else repr(oks[0].value))
     return out
 
 
